@@ -51,7 +51,8 @@ Section ConcLoser.
                   eassert (H : nth_error (c_threads S) tid = Some _) by (cbn [c_threads]; eapply nth_set_same'; exact Ht);
                   rewrite (own_step_eq S tid _ _ _ H eq_refl); clear H;
                   cbn [exec_mop fst]; unfold upd_thread;
-                  cbn [t_regs t_prog t_out c_rc c_slots c_wlock c_next c_live c_freed c_data c_torn c_payload_drops c_threads c_offs fold_left tl];
+                  cbn [t_regs t_prog t_out c_rc c_slots c_wlock c_next c_live c_freed c_data c_torn c_payload_drops c_threads c_offs fold_left wl_release fst snd];
+                  try (fold b; rewrite !Nat.eqb_refl; cbn [andb]);
                   rewrite set_nth_twice
               end
           end).
